@@ -114,7 +114,8 @@ Thm(a) ==
 (* element.  Only structures the spec computes are written -- the harness  *)
 (* builds the operands in a real BDDEnv and compares the real result.      *)
 Tab   == SetToSeq(W)
-IdxOf == [n \in W |-> CHOOSE i \in 1..NW : Tab[i] = n]
+\* (TLC evaluates constant definitions eagerly: the quadratic index is only built when tables are emitted)
+IdxOf == IF Emit THEN [n \in W |-> CHOOSE i \in 1..NW : Tab[i] = n] ELSE <<>>
 IdxSeq(q) == [i \in DOMAIN q |-> IdxOf[q[i]]]
 
 RECURSIVE Join(_)
